@@ -179,6 +179,8 @@ def signature(v):
     import re
     d = v.get("detail")
     d = re.sub(r"[0-9]+", "N", str(d))[:80] if d else ""
+    if not d and v["clause"] == "model-unknown-id":
+        d = "id=" + str(v.get("why", ["", "", "?"])[2])
     return "%s;%s;%s" % (v["clause"], " ".join(v["config"]) or "default", d)
 
 
@@ -222,11 +224,20 @@ def main(tier, seed, only=None):
     nh = len(hand_instances())
     units = [(b, limits) for b in blocks[:-nh]] + [(b, dict(limits, b0=6, bs=5, nodes=150000)) for b in blocks[-nh:]]
     tasks = []
+    shallow = None
+    if not quick:
+        # the full product (depth-4 tree x 76 option sets) is ~11 h of enumeration: two-deviation option sets run on
+        # the depth-3 tree (+ all hand instances), zero/one-deviation sets on the depth-4 tree
+        small = set(map(lambda b: B.to_text(b), B.tree(A6, 3, max_need=3)))
+        shallow = [u for u in units[:-nh] if B.to_text(u[0]) in small] + units[-nh:]
+        chk.cov["rule"] += ("; thorough: option sets with two deviations are explored on the depth-3 tree and the hand "
+                            "instances only (%d blocks), the others on the full depth-4 tree" % len(shallow))
+    one_dev = set(encoder_configs(1))
     for cfg in cfgs:
-        us = units
+        us = units if (quick or cfg in one_dev) else shallow
         if "-empty" in cfg:
             # without occupancy flags the enumerator has to branch on every cell: keep these instances tiny
-            us = [(b, dict(limits, b0=2, nodes=6000)) for b in blocks]
+            us = [(b, dict(limits, b0=2, nodes=6000)) for b, _l in us]
         elif False:
             pass
         for ch in pool.chunks(us, max(60, len(us) // 8 + 1)):
